@@ -2444,8 +2444,9 @@ class MSSQLCompiler(compiler.SQLCompiler):
         well. Otherwise, it is optional. Here, we add it regardless.
 
         """
+        kw["asfrom"] = True
         return "FROM " + ", ".join(
-            t._compiler_dispatch(self, asfrom=True, fromhints=from_hints, **kw)
+            t._compiler_dispatch(self, fromhints=from_hints, **kw)
             for t in [from_table] + extra_froms
         )
 
@@ -2466,8 +2467,9 @@ class MSSQLCompiler(compiler.SQLCompiler):
         Yes, it has the FROM keyword twice.
 
         """
+        kw["asfrom"] = True
         return "FROM " + ", ".join(
-            t._compiler_dispatch(self, asfrom=True, fromhints=from_hints, **kw)
+            t._compiler_dispatch(self, fromhints=from_hints, **kw)
             for t in [from_table] + extra_froms
         )
 
